@@ -68,6 +68,9 @@ def run_controls(ctx, prop, log=None):
                 except SystemExit as e:
                     ctx.ob("positive-control:" + name, False, "control patch does not compile / extract: %s" % e, where=patch)
                     continue
+                from . import report as _report
+                for k in [k for k in _report._PROG_CACHE if k[0] == fd]:
+                    del _report._PROG_CACHE[k]
                 sub = Ctx(prop, "quick", 0, facts_dir=fd, scratch=True)
                 sub.guard("module", mod.run, sub)
                 keys = [v["key"] for v in sub.violations]
